@@ -78,6 +78,16 @@ def gen_plan(seed: int, tier: str) -> dict:
             op = {"op": "desc_update", "addrs": ["10.0.0.1"], "s": r.randrange(1, 5)}
         op["t"] = t
         ops.append(op)
+        if op["op"] in ("subscribe", "unsubscribe") and r.random() < 0.45:
+            # a second caller changing the subscriptions while this request is still in flight (same instant, a few
+            # event-loop iterations later), on other ids so that the outcome is unambiguous; later a reconnect cycle
+            mine = {tuple(i) for i in op["ids"]}
+            rest = [i for i in subs_pool if i not in mine]
+            if rest:
+                other = sorted(r.sample(rest, min(len(rest), r.choice([1, 2]))))
+                ops.append({"op": "subscribe" if op["op"] == "unsubscribe" or r.random() < 0.5 else "unsubscribe", "ids": [list(i) for i in other], "t": t, "ticks": r.choice([0, 1, 2, 3, 5, 8])})
+                if r.random() < 0.7:
+                    ops.append({"op": r.choice(["rst", "fin"]), "t": round(t + r.choice([1.0, 3.0, 11.0]), 3)})
     ops.sort(key=lambda o: o["t"])
     if not any(o["op"] in ("subscribe", "get") for o in ops[:2]):
         ops.insert(0, {"op": "subscribe", "ids": [[1, 10], [2, 11]], "t": 0.0})
